@@ -36,7 +36,7 @@ ASSUMPTIONS = [
     "force_stop() called on the owner's own loop: a coroutine call whose awaited future had been resolved before that call must deliver the body's outcome (it only needs one more loop turn); "
     "futures resolved after the call may end either way; bodies still suspended end with a cancellation",
 ]
-PROBES = ["sibling_object_same_class", "call.handover", "call.coro_value", "call.coro_slow", "call.coro_careful", "call.coro_raises", "call.coro_raises_now", "call.coro_value_now", "call.coro_raises_timeout", "call.coro_raises_lookup", "call.plain_none", "call.plain_value", "call.attr", "call.direct", "call.after_close", "force_stop_mid_burst", "force_stop_from_task",
+PROBES = ["sibling_object_same_class", "second_loop_thread_exits_mid_call", "call.handover", "call.coro_value", "call.coro_slow", "call.coro_careful", "call.coro_raises", "call.coro_raises_now", "call.coro_value_now", "call.coro_raises_timeout", "call.coro_raises_lookup", "call.plain_none", "call.plain_value", "call.attr", "call.direct", "call.after_close", "force_stop_mid_burst", "force_stop_from_task",
           "preempted_in_proxy", "thread_switches", "typeerror_on_owner", "cancelled_by_stop", "owner_main_direction", "burst_ge_10", "ownerstop.direct", "ownerstop.done_callback",
           "ownerstop.call_value", "ownerstop.call_raise", "ownerstop.call_late", "ownerstop.call_never"]
 
@@ -128,6 +128,7 @@ class Obj:
 def plan(tier):
     return {
         "sweeps": [("fixed", {"burst": b, "stop_at": s, "direction": d}, None) for b in (1, 5) for s in (None, 0, 2) for d in ("worker", "main")]
+        + [("fixed", {"burst": 2, "stop_at": s, "direction": "worker", "second_thread": True}, None) for s in (None, 1)]
         + [("ownerstop", {"n": n, "how": how, "res": res}, None) for n in (1, 3) for how in ("direct", "done_callback") for res in ("value", "raise")],
         "sweep_random_tail": True,
         "exhaustive": "",
@@ -322,6 +323,24 @@ def run(scenario, params, tape, detail=False):
                 got = e
             if got != ("value", -12):
                 viol.append(("C20.relay", "sibling-async-override", f"an async method installed on a second object of the same class returned {got!r} through its proxy (expected its result)"))
+            if params.get("second_thread") or (scenario != "fixed" and tape.draw(3, "second_thread") == 2):
+                # a second secondary-loop thread in the process (another radio link) comes and goes while calls are in flight on this one:
+                # its exit concerns nobody else's calls
+                probe("second_loop_thread_exits_mid_call")
+                thread2 = bt.EventLoopThread()
+                await thread2.start()
+                inflight = [asyncio.ensure_future(proxy.coro_slow(-20 - k)) for k in range(3)]
+                await asyncio.sleep(0.01)
+                thread2.force_stop()
+                for _ in range(200):
+                    if thread2.thread_complete.done():
+                        break
+                    await asyncio.sleep(0.001)
+                res2 = await asyncio.gather(*inflight, return_exceptions=True)
+                want2 = [("value", -20 - k) for k in range(3)]
+                if res2 != want2:
+                    viol.append(("C20.relay", "cancelled-by-another-threads-exit", f"three calls in flight on one loop thread when ANOTHER loop thread of the process stopped: "
+                                 f"the callers got {res2!r} (expected {want2!r})"))
 
         async def one(c):
             """Runs on the *caller's* loop."""
